@@ -695,7 +695,7 @@ def main():
                 rname = json.load(f)["harness"]
             sel = [h for h in hs_all if h.name == rname]
         else:
-            sel = [h for h in hs_all if prop in h.props and (tier == "thorough" or h.tier == "quick")]
+            sel = [h for h in hs_all if (prop in h.props or prop == "ALL") and (tier == "thorough" or h.tier == "quick")]
             if only:
                 sel = [h for h in sel if only in h.name]
         ds, srcdigest = build_overlay(scratch, needed_files(sel))
@@ -726,7 +726,7 @@ def do_replay(prop, path, scratch, ds, hs_all):
 
 def do_check(prop, tier, seed, only, jobs, scratch, ds, srcdigest, hs_all):
     t0 = time.time()
-    hs = [h for h in hs_all if prop in h.props and (tier == "thorough" or h.tier == "quick")]
+    hs = [h for h in hs_all if (prop in h.props or prop == "ALL") and (tier == "thorough" or h.tier == "quick")]
     if only:
         hs = [h for h in hs if only in h.name]
     if not hs:
